@@ -192,6 +192,26 @@ pub fn run(ctx: &mut Ctx) {
         }
         idx += stride;
     }
+    // the bottom of the order, exhaustively: every comparator that admits nothing or everything
+    // (`>*`, `<*`, `<0.0.0-0`, `<0.0.0`, `*`, `>=0.0.0`, `>=0.0.0-0`) and every operator on the
+    // tuples 0.0.0 / 0.0.1 with and without tags, all ordered pairs
+    ctx.stratum("Z-zero-region-pairs", true);
+    {
+        let mut zs: Vec<String> = vec![">*".into(), "<*".into(), ">x".into(), "<X.x".into(), "*".into(), "<=*".into(), "x".into()];
+        for op in [">", ">=", "<", "<=", "=", "^", "~", ""] {
+            for v in ["0.0.0", "0.0.0-0", "0.0.0-0.0", "0.0.0-alpha", "0.0.1-0", "0.0.1", "0.0", "0"] {
+                zs.push(format!("{}{}", op, v));
+            }
+        }
+        for a in &zs {
+            if !ctx.take() {
+                continue;
+            }
+            for b in &zs {
+                judge_pair(ctx, a, b, "zero-region");
+            }
+        }
+    }
     ctx.stratum("D-directed", true);
     for (a, b) in [(">=1.2.3", "<1.0.0"), (">=1.0.0-a", "<1"), ("^1.2.3", "~1.2"), (">1.0.0-a", "<1.0.0-a.0"), ("1.2.3", "1.2.4"), ("*", "1.2.3-a"), (">=1.2.3-a", ">=1.2.0"), ("<2.0.0-rc", "<1.5.0"), ("<=1", ">=1.0.0-0"), (">=0.0.0", "<0.0.0-0")] {
         if ctx.take() {
